@@ -102,7 +102,7 @@ func isFlagSet(name string) bool {
 
 func configs(tier string) []core.BuildConfig {
 	if tier == "thorough" {
-		return []core.BuildConfig{{}, {GOOS: "linux", GOARCH: "386"}, {GOOS: "darwin", GOARCH: "amd64"}}
+		return []core.BuildConfig{{}, {GOOS: "linux", GOARCH: "arm64"}}
 	}
 	return []core.BuildConfig{{}}
 }
